@@ -46,6 +46,7 @@ func init() {
 		simkitFor("mm/pmm", "pmm"),
 		{Src: "engines/pmm/machine.go.txt", Dst: "mm/pmm/zz_verif_machine_test.go", Pkg: "pmm"},
 		{Src: "engines/pmm/seq.go.txt", Dst: "mm/pmm/zz_verif_seq_test.go", Pkg: "pmm"},
+		{Src: "engines/shims/sync_shim.go.txt", Dst: "sync/zz_verif_shim.go", Pkg: "sync"},
 	}
 	pmmAnchors := []string{"kernel/mm/pmm/bitmap_allocator.go", "kernel/mm/pmm/bootmem_allocator.go", "kernel/mm/pmm/pmm.go", "kernel/mm/page.go", "kernel/multiboot/multiboot.go", "kernel/sync/spinlock.go", "kernel/sync/spinlock_amd64.s"}
 	pmmReal := []string{"multiboot.VisitMemRegions decoding a generated multiboot2 information block", "pmm.BootMemAllocator", "pmm.BitmapAllocator (init, AllocFrame, FreeFrame, accounting)", "pmm.Init", "sync.Spinlock incl. assembly", "mm.AllocFrame dispatch", "kfmt.Printf into a captured sink"}
@@ -71,5 +72,24 @@ func init() {
 		Rule: "one evaluation = one simulated boot as in C01 (plus injected reservation/mapping failures and naturally occurring early-boot OOM) followed by a seeded history of allocate / free-own / bad-free (never-allocated, double, out-of-pool, reserved-region, beyond-RAM, invalid frame) calls, counters checked after every call, final drain must yield exactly the usable set. Non-trivial = Init succeeded, >=3 allocations and >=1 free or rejected free; distinct = hash of (memory map, kernel placement, operation counts).",
 		Assume: []string{"frees of kernel-image or early-boot frames are outside the statement and never generated"},
 		Required: []string{"c03.full_drain_checked", "c03.bad_free.double-free", "c03.bad_free.out-of-pool", "c03.init_oom", "c03.init_injected_failure_propagated", "c03.printed_stats_checked"},
+	})
+
+	// ------------------------------------------------------------------ PMM concurrent (C09)
+	addEngine(&engineSpec{
+		Name: "pmmc", PkgDir: "mm/pmm",
+		Files: append(append([]overlayFile(nil), pmmFiles...),
+			overlayFile{Src: "engines/pmm/conc.go.txt", Dst: "mm/pmm/zz_verif_conc_test.go", Pkg: "pmm"}),
+		Instr:   []instrSpec{{File: "mm/pmm/bitmap_allocator.go", Funcs: []string{"BitmapAllocator.AllocFrame", "BitmapAllocator.FreeFrame", "BitmapAllocator.markFrame", "BitmapAllocator.poolForFrame"}, Hooks: "mm/pmm/zz_verif_hooks.go", Pkg: "pmm"}},
+		Anchors: pmmAnchors,
+		Real:    append(append([]string(nil), pmmReal...), "bitmap_allocator.go rebuilt from the current tree with a yield before every statement of AllocFrame/FreeFrame/markFrame/poolForFrame", "contended acquirers reach the scheduler through the real assembly's call to yieldFn"),
+		Stub:    append(append([]string(nil), pmmStub...), "CPUs = goroutine tasks holding a baton; one executes at a time"),
+	})
+	addProp(&propSpec{
+		ID: "C09", Engine: "pmmc", Level: "exploration",
+		Subs: []subCheck{{Name: "C09", QuickRuns: 40000, QuickMs: 40000, ThoroughRuns: 4000000, ThoroughMs: 900000}},
+		Rule: "one evaluation = one simulated boot with small pools followed by a concurrent phase of 2-16 tasks (mixed alloc/free-own/free-unmanaged, or a free storm where frames handed out beforehand are freed concurrently and freed a second time) under a seeded one-at-a-time scheduler that can preempt before every statement of the allocator. Checked during the run (ownership exclusivity, error contracts, exact blocks-forever detection), at quiescence (lock free, reserved/free totals, per-pool bitmap population, drain returns exactly the unheld usable frames) and over the history (linearizability against the frame-set model: inline Wing-Gong search on every run, porcupine on a sample). Non-trivial = at least two allocator calls overlapped and at least one contended lock acquisition; distinct = hash of (memory map, context-switch sequence, history length).",
+		Assume:    []string{"sequentially consistent interleavings at statement granularity; true parallelism and the hardware memory model are not simulated", "callers free only frames they hold; ownership ends when FreeFrame is called"},
+		Required:  []string{"c09.contended_acquire", "c09.preempt_point_inside_critical_section", "c09.oom_under_contention", "c09.double_free_under_contention", "c09.unmanaged_free_under_contention", "c09.free_storm_run", "c09.inline_linearizability_ok"},
+		PostCheck: postC09,
 	})
 }
